@@ -10,8 +10,9 @@ VARIABLES c, verdict
 vars == <<c, verdict>>
 Init == c \in 1..Len(Srcs) /\ verdict = <<>>
 Next == /\ verdict = <<>>
-        /\ LET ok == InDialect(Srcs[c].body, [csubs |-> CSubs])
-           IN  verdict' = <<ok>> /\ PrintT("DLREPORT " \o ToJson([id |-> Srcs[c].id, ok |-> ok]))
+        /\ LET ok == InDialect(Srcs[c].body, [csubs |-> CSubs, ext |-> FALSE])
+               mean == HasMeaning(Srcs[c].body, [csubs |-> CSubs, ext |-> TRUE])
+           IN  verdict' = <<ok>> /\ PrintT("DLREPORT " \o ToJson([id |-> Srcs[c].id, ok |-> ok, meaning |-> mean]))
         /\ UNCHANGED c
 Spec == Init /\ [][Next]_vars
 =============================================================================
